@@ -27,6 +27,8 @@ type ctx struct {
 	r    *runner.Result
 	out  []Violation
 	seen map[string]bool
+	// accounting requests acknowledged with SUCCESS, for the content-based sink ledger
+	acctOK []model.AcctRequest
 }
 
 func (c *ctx) v(class, format string, args ...interface{}) {
